@@ -223,7 +223,7 @@ def _ident_matches(ident, tol):
     if isinstance(ident, int):
         return (65536 - ident) in tol      # rustix keeps -errno in a u16
     if isinstance(ident, str):
-        return ERRNO.get(ident) in tol
+        return ERRNO.get(ident, ERRNO.get(ident[1:] if ident.startswith("E") else ident)) in tol
     return False
 
 
@@ -295,6 +295,7 @@ def _const_idents(fn, operand, proms, depth=0):
         if "v" in c and not c.get("ty", "").startswith("bool"):
             try:
                 res.add(int(c["v"]))
+                return          # the value is known: the constant's name adds nothing
             except (TypeError, ValueError):
                 pass
         if "unevaluated" in c:
@@ -695,7 +696,7 @@ def run(fx, crates=None, cfgname="A"):
 def _view(fx, f):
     import views
     try:
-        return views.view(fx, f.path, depth=3) or f
+        return views.view(fx, f.path, depth=3, threaded=False) or f
     except Exception:
         return f
 
